@@ -239,13 +239,27 @@ def rule_WB(ctx):
                     return bool(assigns) and all(bounded(a, depth + 1) for a in assigns)
                 if isinstance(e, ast.Call) and isinstance(e.func, ast.Name) and e.func.id == 'min':
                     return any(bounded(a, depth + 1) for a in e.args)
+                if isinstance(e, ast.IfExp):
+                    return bounded(e.body, depth + 1) and bounded(e.orelse, depth + 1)
                 if isinstance(e, ast.BinOp) and isinstance(e.op, ast.Sub):
                     return bounded(e.left, depth + 1)      # end - k with k >= 0 by construction of the callers
                 return False
-            if bounded(limit):
+            # does the loop variable name the END of each written pattern (writes start at v - stride) or its START (writes run
+            # from v to v + stride)?  In the second case the last start must be at most <bounded> - stride.
+            v = lp.target.id if isinstance(lp.target, ast.Name) else None
+            stride = ast.unparse(it.args[2]) if len(it.args) > 2 else '1'
+            starts = [x for x in ast.walk(lp) if isinstance(x, ast.Assign) and isinstance(x.value, ast.Name) and x.value.id == v]
+            ends = [x for x in ast.walk(lp) if isinstance(x, ast.Assign) and isinstance(x.value, ast.BinOp) and isinstance(x.value.op, ast.Sub)
+                    and ast.unparse(x.value.left) == v and ast.unparse(x.value.right) == stride]
+            if starts and not ends:
+                if isinstance(limit, ast.BinOp) and isinstance(limit.op, ast.Sub) and ast.unparse(limit.right) == stride:
+                    limit = limit.left          # last start + stride <= this
+                else:
+                    limit = None
+            if limit is not None and bounded(limit):
                 r.ok(f'{f.key}:{norm(it)}', {'instance': f.key, 'loop': norm(it), 'limit': norm(limit), 'bounded_by': e_var})
             else:
-                r.fail(f.key, f'{norm(it)}: limit {norm(limit)}', f"the loop of in-place writes runs up to '{norm(limit)}', which is not bounded by the "
+                r.fail(f.key, f'{norm(it)}: limit {norm(limit) if limit is not None else norm(stop)}', f"the loop of in-place writes runs up to '{norm(limit) if limit is not None else norm(stop)}', which is not bounded by the "
                        f"validated end '{e_var}' on every path: bits beyond the given [start, end) range are altered", loc=f.loc(lp))
     if n < 1:
         raise AnalysisError('no ranged write loop found (byteswap vanished?)')
@@ -672,7 +686,8 @@ def rule_N2(ctx):
                 r.ok(f'{f.key}:{norm(node)}', {'instance': f.key, 'division': norm(node), 'verdict': 'dominating non-zero guard'})
                 continue
             # 3. Array item width: invariant established by N2a
-            if f.cls == 'Array' and ('_dtype.bitlength' in dt or dt == 'self.itemsize'):
+            dt_x = ast.unparse(G.expand(f, div))          # through a local such as `itemsize = self._dtype.bitlength`
+            if f.cls == 'Array' and ('_dtype.bitlength' in dt or dt == 'self.itemsize' or '_dtype.bitlength' in dt_x or dt_x == 'self.itemsize'):
                 if arr_ok is None:
                     from .dims import rule_N2a
                     arr_ok = not rule_N2a(ctx).findings
@@ -820,6 +835,50 @@ def _keys_are_allowed_lengths(ctx, f, base):
     return False
 
 
+def _keys_cover_regex_class(ctx, f, base, key):
+    """The key is the endianness character a struct-token regular expression matched, and the table has an entry for every
+    character of that regex's endian class (H1 checks what each entry selects)."""
+    from . import tables as T
+    m = ctx.m
+    d = base
+    if not isinstance(d, ast.Dict):
+        nm = ast.unparse(base).split('.')[-1]
+        d = None
+        for mod in m.mods:
+            gv = m.modglobals[mod].get(nm)
+            if isinstance(gv, ast.Dict):
+                d = gv
+    if not isinstance(d, ast.Dict) or not all(isinstance(k, ast.Constant) and isinstance(k.value, str) for k in d.keys):
+        return False
+    kt = ast.unparse(key)
+    from_match = "group('endian')" in kt or 'group("endian")' in kt
+    if isinstance(key, ast.Name):
+        from_match = any(isinstance(y, ast.Assign) and any(isinstance(t, ast.Name) and t.id == key.id for t in y.targets) and "group('endian')" in ast.unparse(y.value)
+                         for y in own_walk(f.node)) or key.id == 'endian'
+    if not from_match:
+        return False
+    classes = set()
+    import re as _re2
+    try:
+        # which regular expression the match object of this function comes from (the pairing rule H1 uses)
+        own = {'utils:structparser': ('STRUCT_PACK_RE',), 'utils:parse_single_struct_token': ('SINGLE_STRUCT_PACK_RE',)}.get(ctx.rk(f.key))
+        for name in own or T.STRUCT_REGEXES:
+            pat = T._regex_literal(m, name)
+            if 'endian' not in pat:
+                continue
+            if _re2.search(r'\(\?P<endian>[^)]*\)[?*]', pat):
+                return False          # the group may be absent (None is not a key)
+            for cls_ in T.regex_classes(pat):
+                if cls_ & set('<>@='):
+                    classes |= set(cls_)
+    except Exception:
+        return False
+    keys = {k.value for k in d.keys}
+    if classes and classes <= keys:
+        return 'the table has an entry for each endianness character the regular expression admits'
+    return False
+
+
 def rule_N5(ctx):
     """Every lookup in a dict table by a run-time key is guarded (membership test, try/except KeyError) or justified."""
     m = ctx.m
@@ -865,6 +924,8 @@ def rule_N5(ctx):
                     guarded = True       # the key iterates over the table itself
             if not guarded:
                 guarded = _keys_are_allowed_lengths(ctx, f, base)
+            if not guarded:
+                guarded = _keys_cover_regex_class(ctx, f, base, x.slice)
             if guarded:
                 r.ok(f'{f.key}:{key}', {'instance': f.key, 'lookup': key, 'verdict': 'membership test / KeyError handler' if guarded is True else guarded})
             elif _rmatch(ctx, N5_REASONS, ctx.rk(f.key), key, f) is not None:
